@@ -483,7 +483,7 @@ package message
 //@   requires inv: [typeinv] msgInv(m)
 //@   assigns @msgRead, strmEncrypting, strmSaved, @strmToggle(m.stream), parseIntCount, parseIntValue, parseIntOK
 //@   ensures inv_kept: msgInv(m)
-//@   ensures ad_on_success: err == nil ==> result != nil
+//@   ensures ad_on_success: [shared] err == nil ==> result != nil
 //@   let P0 = old(rdTotal) - old(viewLen(m))
 //@   loop 1 invariant budget: msgInv(m) && 0 <= totalBytesRead && (maxSize > 0 ==> totalBytesRead <= maxSize + 1)
 //@   loop 1 invariant buf_own: m.buffer == old(m.buffer) && m.stream == old(m.stream) && (ref(m.buffer.buf) == old(ref(m.buffer.buf)) || fresh(m.buffer.buf))
